@@ -147,13 +147,17 @@ def rule_truthy(ctx):
     silently discards them."""
     from .common import concrete_message_classes, msg_base
     p = ctx.p
-    f, paths = B.explore_process(ctx)
     tested = False
-    for pa in paths:
-        for e in pa.assumes():
-            c = e.data["cond"]
-            if isinstance(c, Term) and B.parsed_prefix(c) is not None:
-                tested = True  # 'if message:' / 'if not message:' on the parsed message itself
+    try:
+        f, paths = B.explore_process(ctx)
+        for pa in paths:
+            for e in pa.assumes():
+                c = e.data["cond"]
+                if isinstance(c, Term) and B.parsed_prefix(c) is not None:
+                    tested = True  # 'if message:' / 'if not message:' on the parsed message itself
+    except B.RolesUnknown:
+        # a buffer organised differently: assume it may test the parsed message for truthiness (every shape so far did)
+        tested = True
     # the sending side has the same idiom: Driver.send_message(msg) forwards 'if ... and msg'
     sm = p.cls("indi.device.driver.Driver").find_method("send_message")
     sender_tested = False
@@ -200,6 +204,8 @@ def rule_find(ctx):
 def rule_own(ctx):
     B.check_own_buffer(ctx, "C02.OWN")
 
+
+EXPLANATION = EXPLANATION + " C02.APPEND's operation sequences include pieces that are nothing but a line break or a blank (where the stream is cut must not matter)."
 
 RULES = [
     ("C02.OWN", rule_own, "every connection object constructs its own receive buffer (no buffer shared through a default argument / class attribute)"),
